@@ -312,152 +312,93 @@ theorem clockHour_eq (t : LocalTime) (hv : Valid t) :
 
 /-! ### _TimePeriodField steps -/
 
-theorem pyTdiv_bind_ok {α} (x y : Int) (f : Int → R α) (r : α) (h : (pyTdiv x y >>= f) = .ok r) :
-    f (Int.tdiv x y) = .ok r ∧ inDecDomain x y = true := by
-  unfold pyTdiv at h
-  split at h
-  · split at h <;> cases h
-  · split at h
-    · rename_i hd; exact ⟨h, hd⟩
-    · cases h
-
-theorem pyTdiv_bind_err {α} (x y : Int) (f : Int → R α) (e : PyExc) (hy : y ≠ 0) (h : (pyTdiv x y >>= f) = .error e) :
-    (f (Int.tdiv x y) = .error e ∧ inDecDomain x y = true) ∨ (e = .decimalDomain ∧ inDecDomain x y = false) := by
-  unfold pyTdiv at h
-  rw [if_neg hy] at h
-  split at h
-  · rename_i hd; left; exact ⟨h, hd⟩
-  · rename_i hd; right; refine ⟨by cases h; rfl, by simpa using hd⟩
-
-theorem splitDays_ok (u : TimeUnit) (big : Bool) (v : Int) (dv : Int × Int) (h : u.splitDays big v = .ok dv) :
-    dv = if big then (Int.tdiv v u.unitsPerDay, csharpMod v u.unitsPerDay) else (0, v) := by
-  unfold splitDays at h
-  cases big
-  · simp only [Bool.false_eq_true, if_false, Except.ok.injEq] at h ⊢; exact h.symm
-  · simp only [if_true] at h ⊢
-    have := (pyTdiv_bind_ok _ _ _ _ h).1
-    simp only [Except.ok.injEq] at this; exact this.symm
-
 theorem unitsPerDay_pos (u : TimeUnit) : 0 < u.unitsPerDay := by cases u <;> decide
-theorem unitsPerDay_lt (u : TimeUnit) : u.unitsPerDay < decBound := by cases u <;> decide
 theorem nanos_pos (u : TimeUnit) : 0 < u.nanos := by cases u <;> decide
 theorem unitsPerDay_mul_nanos (u : TimeUnit) : u.unitsPerDay * u.nanos = NPD := by cases u <;> decide
 
-/-- inside the Decimal domain the split never fails -/
-theorem splitDays_dom (u : TimeUnit) (big : Bool) (v : Int) (h1 : -decBound < v) (h2 : v < decBound) :
-    u.splitDays big v = .ok (if big then (Int.tdiv v u.unitsPerDay, csharpMod v u.unitsPerDay) else (0, v)) := by
-  unfold splitDays
-  cases big
-  · simp only [Bool.false_eq_true, if_false]
-  · simp only [if_true]
-    have hp := unitsPerDay_pos u
-    have hl := unitsPerDay_lt u
-    rw [pyTdiv_bind _ _ _ (by omega) h1 h2 (by simp only [decBound] at *; omega) hl]
+theorem splitDays_false (u : TimeUnit) (q v : Int) : u.splitDays false q v = (0, v) := by
+  simp only [splitDays, Bool.false_eq_true, if_false]
 
-/-- the split fails only with the Decimal-domain error, and only for amounts of 10^27 units or more -/
-theorem splitDays_err (u : TimeUnit) (big : Bool) (v : Int) (e : PyExc) (h : u.splitDays big v = .error e) :
-    e = .decimalDomain ∧ (v ≤ -decBound ∨ decBound ≤ v) := by
-  by_cases hd : -decBound < v ∧ v < decBound
-  · rw [splitDays_dom u big v hd.1 hd.2] at h; cases h
-  · unfold splitDays at h
-    cases big
-    · simp only [Bool.false_eq_true, if_false] at h; cases h
-    · simp only [if_true] at h
-      have hp := unitsPerDay_pos u
-      rcases pyTdiv_bind_err _ _ _ _ (by omega) h with ⟨h', _⟩ | ⟨he, _⟩
-      · cases h'
-      · exact ⟨he, by omega⟩
+theorem splitDays_true (u : TimeUnit) (q v : Int) : u.splitDays true q v = (q, csharpMod v u.unitsPerDay) := by
+  simp only [splitDays, if_true]
 
-theorem ite_ok_exists {α} {c : Prop} [Decidable c] (a b : α) :
-    ∃ r, (if c then (Except.ok a : R α) else .ok b) = .ok r := by
-  by_cases h : c
-  · exact ⟨a, by rw [if_pos h]⟩
-  · exact ⟨b, by rw [if_neg h]⟩
+/-- the non-negative branch of `_add_local_time_with_extra_days`, for every amount -/
+theorem pos_branch (u : TimeUnit) (t : LocalTime) (k : Int) (hv : Valid t) (hk : k ≥ 0) :
+    let dv := u.splitDays (decide (k ≥ u.unitsPerDay)) (Int.fdiv k u.unitsPerDay) k
+    let n := t.nod + dv.2 * u.nanos
+    let r : LocalTime × Int := if n ≥ NPD then (⟨n - NPD⟩, dv.1 + 1) else (⟨n⟩, dv.1)
+    Valid r.1 ∧ t.nod + k * u.nanos = r.2 * NPD + r.1.nod := by
+  simp only [Valid] at *
+  cases hbig : decide (k ≥ u.unitsPerDay)
+  · have hb := of_decide_eq_false hbig
+    simp only [splitDays_false]
+    by_cases hc : t.nod + k * u.nanos ≥ NPD
+    · simp only [hc, if_true]
+      cases u <;>
+      · simp only [TimeUnit.nanos, TimeUnit.unitsPerDay] at *
+        c10_consts
+        omega
+    · simp only [hc, if_false]
+      cases u <;>
+      · simp only [TimeUnit.nanos, TimeUnit.unitsPerDay] at *
+        c10_consts
+        omega
+  · have hb := of_decide_eq_true hbig
+    simp only [splitDays_true]
+    by_cases hc : t.nod + csharpMod k u.unitsPerDay * u.nanos ≥ NPD
+    · simp only [hc, if_true]
+      cases u <;>
+      · simp only [TimeUnit.nanos, TimeUnit.unitsPerDay] at *
+        c10_consts
+        simp (disch := decide) only [fdiv_pos, csharpMod_pos] at *
+        simp only [show ¬ (k < 0) by omega, false_and, if_false] at *
+        omega
+    · simp only [hc, if_false]
+      cases u <;>
+      · simp only [TimeUnit.nanos, TimeUnit.unitsPerDay] at *
+        c10_consts
+        simp (disch := decide) only [fdiv_pos, csharpMod_pos] at *
+        simp only [show ¬ (k < 0) by omega, false_and, if_false] at *
+        omega
 
-/-- the negative branch of `_add_local_time_with_extra_days` -/
-theorem neg_branch (u : TimeUnit) (t t' : LocalTime) (k d : Int) (hv : Valid t) (hk : ¬ k ≥ 0)
-    (h : (do
-      let dv ← u.splitDays (decide (k ≤ -u.unitsPerDay)) k
-      let n := t.nod + dv.2 * u.nanos
-      if n < 0 then .ok (⟨n + NPD⟩, dv.1 - 1) else .ok (⟨n⟩, dv.1) : R (LocalTime × Int)) = .ok (t', d)) :
-    Valid t' ∧ t.nod + k * u.nanos = d * NPD + t'.nod := by
-  cases hs : u.splitDays (decide (k ≤ -u.unitsPerDay)) k with
-  | error e => rw [hs] at h; cases h
-  | ok dv =>
-    rw [hs] at h
-    have hdv := splitDays_ok _ _ _ _ hs
-    simp only [bind, Except.bind] at h
-    simp only [Valid] at *
-    have hlt : k < 0 := by omega
-    cases hbig : decide (k ≤ -u.unitsPerDay)
-    · have hb := of_decide_eq_false hbig
-      rw [hbig] at hdv
-      simp only [Bool.false_eq_true, if_false] at hdv
-      subst hdv
-      simp only at h
-      split at h <;>
-      · simp only [Except.ok.injEq, Prod.mk.injEq] at h
-        obtain ⟨rfl, rfl⟩ := h
-        cases u <;>
-        · simp only [TimeUnit.nanos, TimeUnit.unitsPerDay] at *
-          c10_consts
-          omega
-    · have hb := of_decide_eq_true hbig
-      rw [hbig] at hdv
-      simp only [if_true] at hdv
-      subst hdv
-      simp only at h
-      split at h <;>
-      · simp only [Except.ok.injEq, Prod.mk.injEq] at h
-        obtain ⟨rfl, rfl⟩ := h
-        cases u <;>
-        · simp only [TimeUnit.nanos, TimeUnit.unitsPerDay] at *
-          c10_consts
-          simp (disch := decide) only [tdiv_pos, csharpMod_pos] at *
-          simp only [show ¬ (0 ≤ k) by omega, hlt, if_false, true_and] at *
-          split at * <;> omega
-
-/-- the non-negative branch of `_add_local_time_with_extra_days` -/
-theorem pos_branch (u : TimeUnit) (t t' : LocalTime) (k d : Int) (hv : Valid t) (hk : k ≥ 0)
-    (h : (do
-      let dv ← u.splitDays (decide (k ≥ u.unitsPerDay)) k
-      let n := t.nod + dv.2 * u.nanos
-      if n ≥ NPD then .ok (⟨n - NPD⟩, dv.1 + 1) else .ok (⟨n⟩, dv.1) : R (LocalTime × Int)) = .ok (t', d)) :
-    Valid t' ∧ t.nod + k * u.nanos = d * NPD + t'.nod := by
-  cases hs : u.splitDays (decide (k ≥ u.unitsPerDay)) k with
-  | error e => rw [hs] at h; cases h
-  | ok dv =>
-    rw [hs] at h
-    have hdv := splitDays_ok _ _ _ _ hs
-    simp only [bind, Except.bind] at h
-    simp only [Valid] at *
-    cases hbig : decide (k ≥ u.unitsPerDay)
-    · have hb := of_decide_eq_false hbig
-      rw [hbig] at hdv
-      simp only [Bool.false_eq_true, if_false] at hdv
-      subst hdv
-      simp only at h
-      split at h <;>
-      · simp only [Except.ok.injEq, Prod.mk.injEq] at h
-        obtain ⟨rfl, rfl⟩ := h
-        cases u <;>
-        · simp only [TimeUnit.nanos, TimeUnit.unitsPerDay] at *
-          c10_consts
-          omega
-    · have hb := of_decide_eq_true hbig
-      rw [hbig] at hdv
-      simp only [if_true] at hdv
-      subst hdv
-      simp only at h
-      split at h <;>
-      · simp only [Except.ok.injEq, Prod.mk.injEq] at h
-        obtain ⟨rfl, rfl⟩ := h
-        cases u <;>
-        · simp only [TimeUnit.nanos, TimeUnit.unitsPerDay] at *
-          c10_consts
-          simp (disch := decide) only [tdiv_pos, csharpMod_pos] at *
-          simp only [show (0 ≤ k) by omega, show ¬ (k < 0) by omega, if_true, false_and, if_false] at *
-          omega
+/-- the negative branch of `_add_local_time_with_extra_days`, for every amount -/
+theorem neg_branch (u : TimeUnit) (t : LocalTime) (k : Int) (hv : Valid t) (hk : ¬ k ≥ 0) :
+    let dv := u.splitDays (decide (k ≤ -u.unitsPerDay)) (-(Int.fdiv (-k) u.unitsPerDay)) k
+    let n := t.nod + dv.2 * u.nanos
+    let r : LocalTime × Int := if n < 0 then (⟨n + NPD⟩, dv.1 - 1) else (⟨n⟩, dv.1)
+    Valid r.1 ∧ t.nod + k * u.nanos = r.2 * NPD + r.1.nod := by
+  simp only [Valid] at *
+  cases hbig : decide (k ≤ -u.unitsPerDay)
+  · have hb := of_decide_eq_false hbig
+    simp only [splitDays_false]
+    by_cases hc : t.nod + k * u.nanos < 0
+    · simp only [hc, if_true]
+      cases u <;>
+      · simp only [TimeUnit.nanos, TimeUnit.unitsPerDay] at *
+        c10_consts
+        omega
+    · simp only [hc, if_false]
+      cases u <;>
+      · simp only [TimeUnit.nanos, TimeUnit.unitsPerDay] at *
+        c10_consts
+        omega
+  · have hb := of_decide_eq_true hbig
+    simp only [splitDays_true]
+    by_cases hc : t.nod + csharpMod k u.unitsPerDay * u.nanos < 0
+    · simp only [hc, if_true]
+      cases u <;>
+      · simp only [TimeUnit.nanos, TimeUnit.unitsPerDay] at *
+        c10_consts
+        simp (disch := decide) only [fdiv_pos, csharpMod_pos] at *
+        simp only [show k < 0 by omega, true_and] at *
+        omega
+    · simp only [hc, if_false]
+      cases u <;>
+      · simp only [TimeUnit.nanos, TimeUnit.unitsPerDay] at *
+        c10_consts
+        simp (disch := decide) only [fdiv_pos, csharpMod_pos] at *
+        simp only [show k < 0 by omega, true_and] at *
+        omega
 
 /-! ### the date as a day number -/
 
